@@ -109,8 +109,15 @@ def run(prop, tier, seed):
             gspecs.append(g)
         rst = pipeline.replay_stage(gspecs, "paramcore",
                                     {"nontrivial": nt, "probe": prop == "C05", "tolerate": tolerate}, scratch, 1500)
+        stages = [rst]
+        if prop == "C03":
+            est = pipeline.replay_stage([{"module": "MC_Equality.tla", "cfg": "MC_Equality_gen.cfg", "workers": 4}],
+                                        "equality", {}, scratch, 900, name="replay_equality", chunk=4)
+            pst2 = pipeline.tlc_prop_stage([{"module": "MC_Equality.tla", "cfg": "MC_Equality_prop.cfg"}], scratch, 600)
+            pst2.name = "tlc_properties_equality"
+            stages += [est, pst2]
         th.join()
-    return pipeline.finish(prop, tier, seed, t0, [box["st"], rst], rule=rule,
+    return pipeline.finish(prop, tier, seed, t0, [box["st"]] + stages, rule=rule,
                            assumptions=["small-scope: 2 parameters (+1 Event / constant), <=3 watchers from a fixed set of configurations, <=3-5 user operations exhaustively, longer by simulation",
                                         "value tokens 0/1 (+True, NaN, nested list, 1.0 for the equality domain); Bad=99 against Integer bounds (0,5)",
                                         "OnAbort calibrated on the code under test: " + onabort,
